@@ -54,6 +54,7 @@ Section Balloon.
     a_hyper_value : option V;                 (* QueryProof.Value (nil when the key is not found) *)
     a_hyper_path : list (hpos * D);
     a_history : option (list (pos * D));      (* nil HistoryProof when absent *)
+    a_hist_index : N; a_hist_version : N;     (* HistoryProof.Index / .Version: what the server built the proof at *)
     a_current : N; a_query : N; a_actual : N
   }.
 
@@ -68,6 +69,7 @@ Section Balloon.
     let '(val, hp) := hyper_find D E V H nbits ds (hyper_tree st) (kbits d) in
     match val with
     | None => QOk {| a_key := d; a_exists := false; a_hyper_value := None; a_hyper_path := hp; a_history := None;
+                     a_hist_index := 0; a_hist_version := 0;
                      a_current := cur; a_query := version; a_actual := v |}
     | Some w =>
         let actual := vnum w in
@@ -75,6 +77,7 @@ Section Balloon.
           match prove_membership D E V H (hget st) actual v with
           | None => QPanic
           | Some p => QOk {| a_key := d; a_exists := true; a_hyper_value := Some w; a_hyper_path := hp; a_history := Some p;
+                             a_hist_index := actual; a_hist_version := v;
                              a_current := cur; a_query := version; a_actual := actual |}
           end
         else QError
@@ -91,8 +94,8 @@ Section Balloon.
     if (b_version st <=? s) || (b_version st <=? e) || (e <? s) then None   (* clean error: invalid range *)
     else Some (prove_consistency D E V H (hget st) s e).
 
-  (* verdicts: accept / reject / panic *)
-  Inductive verdict := Accept | Reject | VPanic.
+  (* verdicts.  A missing audit-path entry is a rejection (it was a panic before the fix commits 76e96b4, 538027d) *)
+  Inductive verdict := Accept | Reject.
 
   Definition hyper_verify (a : answer) (d : E) (hyper_digest : D) (value : V) : verdict :=
     match a_hyper_path a with
@@ -100,7 +103,7 @@ Section Balloon.
     | _ =>
       match hyper_root_of_proof D E V H nbits (hpath_get D (a_hyper_path a))
               (length (a_hyper_path a)) (kbits d) value with
-      | None => VPanic
+      | None => Reject
       | Some r => if E_eqb d (a_key a) && D_eqb r hyper_digest then Accept else Reject
       end
     end.
@@ -110,7 +113,7 @@ Section Balloon.
     | None => Reject
     | Some p =>
         match membership_root D E V H (path_get p) (a_actual a) (a_query a) d with
-        | None => VPanic
+        | None => Reject
         | Some r => if D_eqb r hist_digest then Accept else Reject
         end
     end.
@@ -120,19 +123,31 @@ Section Balloon.
      rejected. *)
   Definition digest_verify (a : answer) (d : E) (snap_hist snap_hyper : D) : verdict :=
     if negb (a_exists a) || (a_query a <? a_actual a) then Reject else
-    match hyper_verify a d snap_hyper (vval (a_actual a)) with
-    | VPanic => VPanic
-    | hv =>
-        match history_verify a d snap_hist with
-        | VPanic => VPanic
-        | Accept => hv
-        | Reject => Reject
+    match hyper_verify a d snap_hyper (vval (a_actual a)), history_verify a d snap_hist with
+    | Accept, Accept => Accept
+    | _, _ => Reject
+    end.
+
+  (* DigestVerify on the proof object as the server built it (before ToMembershipResult / ToBalloonProof):
+     the hyper value is the stored one and the history proof carries its own index and version *)
+  Definition object_verify (a : answer) (d : E) (snap_hist snap_hyper : D) : verdict :=
+    if negb (a_exists a) || (a_query a <? a_actual a) then Reject else
+    match a_hyper_value a, a_history a with
+    | Some w, Some p =>
+        match hyper_verify a d snap_hyper w,
+              (match membership_root D E V H (path_get p) (a_hist_index a) (a_hist_version a) d with
+               | None => Reject
+               | Some r => if D_eqb r snap_hist then Accept else Reject
+               end) with
+        | Accept, Accept => Accept
+        | _, _ => Reject
         end
+    | _, _ => Reject
     end.
 
   Definition incremental_verify (p : list (pos * D)) (s e : N) (ds de : D) : verdict :=
     match incremental_roots D E V H (path_get p) s e with
     | (Some a, Some b) => if D_eqb a ds && D_eqb b de then Accept else Reject
-    | _ => VPanic
+    | _ => Reject
     end.
 End Balloon.
